@@ -224,6 +224,8 @@ def check(ctx):
     for _ in range(ctx.scale(80, 800)):
         kind = rng.choice(['min', 'max', 'mean', 'var', 'cov'])
         h1, h2 = gen_history(rng, kind), gen_history(rng, kind)
+        if rng.random() < 0.3:
+            h2 = h2[:1]             # an operand that has seen exactly one observation
         shape = np.shape(h1[0])
         h2 = [np.reshape(np.resize(np.asarray(x, dtype=float), int(np.prod(shape)) if shape else 1), shape) if shape else float(np.ravel(x)[0]) for x in h2]
         if kind == 'cov':
